@@ -301,6 +301,27 @@ class Gen:
             S.append(S[0])
         elif invalid == "dupcell":
             cells.append(cells[r.randrange(len(cells))])
+        elif invalid in ("dupcell64", "dupcell63", "dupcell65", "gridx4"):
+            # duplicates in lists of (about) 64 rows: a full grid with one cell replaced by a copy of another,
+            # or a small grid listed several times
+            pool = self.sig_pool(gnss)
+            ng = max(d for d in (1, 2, 4, 8, 16, 32) if d <= len(pool))
+            ng = min(ng, 8)
+            ns = 64 // ng
+            S = r.sample(range(1, 65), ns)
+            G = r.sample(pool, ng)
+            grid = [(s_, g_) for s_ in S for g_ in G]
+            if invalid == "gridx4":
+                S = S[:max(1, ns // 4)]
+                grid = [(s_, g_) for s_ in S for g_ in G] * 4
+                cells = grid[:64]
+            else:
+                k = r.randrange(1, len(grid))
+                grid[k] = grid[k - 1]
+                cells = grid + ([grid[0]] if invalid == "dupcell65" else [])
+                if invalid == "dupcell63":
+                    cells = cells[1:] if cells[0] != cells[1] else cells[:-1]
+            return self.msm_rows(r, f, S, cells, mode)
         elif invalid == "mismatch-extra-sat":
             extra = [x for x in range(1, 65) if x not in S]
             if extra:
@@ -368,6 +389,14 @@ class Gen:
                 ent.append((s, table[i % len(table)]))
             for j in range(min(cap - k, r.choice([0, 3]))):
                 ent.append(((s + 1 + j) % (maxsat + 1), r.choice(table)))
+        elif shape.startswith("seq:"):
+            # an explicit sequence of satellite ids; signals assigned round-robin per satellite (distinct keys
+            # while a satellite has fewer entries than the table has signals)
+            per = {}
+            for s_ in [int(x) for x in shape[4:].split(",") if x != ""]:
+                j = per.get(s_, 0)
+                ent.append((s_, table[j % len(table)]))
+                per[s_] = j + 1
         elif shape == "latefail":
             # a long body written before the encoder refuses the list: every satellite but the last is fine,
             # the highest-numbered one carries more than 31 entries
